@@ -146,7 +146,11 @@ def _update_view(prefix, links, leaf="job"):
         )
     )
     for path in to_update:
-        os.unlink(os.path.join(prefix, path))
+        p = os.path.join(prefix, path)
+        try:
+            os.unlink(p)
+        except OSError:
+            os.rmdir(p)
     for path in chain(new, to_update):
         dst = os.path.join(prefix, path)
         src = os.path.relpath(links[path], os.path.split(dst)[0])
@@ -186,6 +190,14 @@ def _analyze_view(prefix, links, leaf="job"):
             obsolete.append(os.path.join(*(n.name for n in branch)))
     if "." in obsolete:
         obsolete.remove(".")
+    # Existing links that are directories of the new view have to go as well.
+    obsolete.extend(
+        p
+        for p in existing_paths
+        if p not in links
+        and p not in obsolete
+        and os.path.islink(os.path.join(prefix, p))
+    )
     keep_or_update = existing_paths.intersection(links.keys())
     new = set(links.keys()).difference(keep_or_update)
     to_update = [
